@@ -658,6 +658,8 @@ func runC12(c *an.Ctx, p *an.Prog, thorough bool) {
 		c.Check(len(bad) == 0 && n > 0, "C12.3", "dispatcher|upgrade-uses-update", p.Pos(d.Pos()), "both branches of the update case write through s.update (policy included)", strings.Join(uniqS(bad), "; "))
 	}
 	c113(c, p, "C12.4")
+	// C12.5: remote upgrades keep happening: the rate-limit slot is given back on every path of the upgrade job
+	semaphoreReleased(c, p, "C12.5")
 	_ = token.ADD
 }
 
